@@ -589,3 +589,42 @@ def guard_nan(ctx, P, rule="GUARD-NAN", tus=("trees",)):
                        "no guard on `%s` is true for NaN (%s): a NaN coordinate passes validation" % (p_.name, "; ".join(estr(g.ifn.kids[0])[:50] for g in mine[:3])))
     ctx.floor(rule, 3)
     return n
+
+
+def validate_all(ctx, P, scope, rule="VALIDATE-ALL", tus=None):
+    """A loop that can reject its input (its body has an error exit `tsk_trace_error(...)` … `goto out`) examines every element:
+    a `break` that belongs to that loop stops the validation at the first element matching some OTHER condition (a NULL
+    entry, a sentinel), and whatever follows it is accepted unexamined."""
+    ctx.rule(rule, "a loop whose body has an error exit (ret = tsk_trace_error(…); goto out) has no `break` of its own: validation "
+                   "loops examine every element; skipping one element is `continue` or a nested `if`, never `break` (which would "
+                   "accept the rest of the list unexamined)")
+    n = 0
+
+    def own_breaks(node):
+        out = []
+        for k in (node.kids or []):
+            if k is None or k.k in ("ForStmt", "WhileStmt", "DoStmt", "SwitchStmt"):
+                continue
+            if k.k == "BreakStmt":
+                out.append(k)
+            out += own_breaks(k)
+        return out
+    for key in (tus or LIB_TUS):
+        tu = P.tus[key]
+        for fn in tu.funcs.values():
+            if fn.body is None or not scope(key, fn.name):
+                continue
+            k = 0
+            for lp in walk(fn.body):
+                if lp.k not in ("ForStmt", "WhileStmt") or not lp.kids or lp.kids[-1] is None:
+                    continue
+                src = tu.src(lp.kids[-1])
+                if "tsk_trace_error" not in src or "goto out" not in src:
+                    continue
+                br = own_breaks(lp.kids[-1])
+                n += 1
+                ctx.ob(rule, "%s@%d" % (fn.name, k), not br, tu.loc(br[0] if br else lp),
+                       "validating loop examines every element" if not br else
+                       "`break` in a validating loop: the elements after the one that triggers it are never checked")
+                k += 1
+    return n
